@@ -12,13 +12,18 @@ def main():
     d, pid = sys.argv[1], sys.argv[2]
     checks = [pid]
     baseline = True
+    wt = None
     for a in sys.argv[3:]:
+        if a.startswith("--wt="):
+            wt = a.split("=", 1)[1]
         if a.startswith("--checks"):
             checks = a.split("=", 1)[1].split(",")
         if a == "--no-baseline":
             baseline = False
     patch = os.path.join(d, "patch.diff")
     demo = os.path.join(d, "demo.py")
+    if wt:
+        return main_wt(d, pid, checks, baseline, wt, patch, demo)
     assert sh("git -C /repo status --porcelain").stdout.strip() == "", "/repo not clean"
     env = dict(os.environ, PYTHONPATH="/repo", PYPANDOC_PANDOC="/verif/tools/pandoc")
     res = {"dir": d, "property": pid}
@@ -46,6 +51,33 @@ def main():
     finally:
         sh("git -C /repo checkout -- . && git -C /repo clean -fdq gapic")
     print(json.dumps(res, indent=1))
+
+def main_wt(d, pid, checks, baseline, wt, patch, demo):
+    """Evaluate against a worktree that has the change applied, without touching /repo (VERIF_REPO)."""
+    res = {"dir": d, "property": pid, "worktree": wt}
+    diff = sh(f"git -C {wt} diff").stdout
+    res["worktree_matches_patch"] = diff.strip() == open(patch).read().strip()
+    env_clean = dict(os.environ, PYTHONPATH="/repo", PYPANDOC_PANDOC="/verif/tools/pandoc")
+    env_wt = dict(os.environ, PYTHONPATH=wt, PYPANDOC_PANDOC="/verif/tools/pandoc")
+    if os.path.exists(demo):
+        r = subprocess.run(["/venv/bin/python", demo], env=env_clean, capture_output=True, text=True, timeout=900)
+        res["demo_clean_rc"] = r.returncode
+        r = subprocess.run(["/venv/bin/python", demo], env=env_wt, capture_output=True, text=True, timeout=900)
+        res["demo_changed_rc"] = r.returncode
+        res["demo_changed_tail"] = (r.stdout + r.stderr)[-500:]
+    if baseline:
+        r = sh(f"/usr/bin/python3 /verif/tools/baseline.py {wt}")
+        res["baseline"] = r.stdout.strip()[-200:]
+        res["baseline_ok"] = r.returncode == 0
+    res["checks"] = {}
+    for c in checks:
+        t = time.time()
+        r = subprocess.run(f"cd /verif && ./check {c} --tier quick", shell=True, capture_output=True, text=True, timeout=3600,
+                           env=dict(os.environ, VERIF_REPO=wt, VERIF_NO_EVIDENCE="1"))
+        lines = [l for l in r.stdout.splitlines() if l.startswith("VIOLATION")]
+        res["checks"][c] = {"rc": r.returncode, "violations": len(lines), "first": lines[:2], "wall": round(time.time() - t, 1)}
+    print(json.dumps(res, indent=1))
+
 
 if __name__ == "__main__":
     main()
